@@ -32,3 +32,22 @@ pub fn replay(s: &mut Summary, v: &V) {
     let sf = match std::str::from_utf8(&b) { Ok(x) => json!({"ok": js(x)}), Err(_) => json!({"err": 1}) };
     s.check("string::from_utf8", kf, &sf);
 }
+
+
+/// random byte strings up to 48 bytes with nuls at random places: {ev: "until_nul" | "with_nul", b, ok, c}
+pub fn record(rng: &mut rand::rngs::SmallRng, n_events: usize, out: &mut dyn std::io::Write) {
+    use rand::Rng;
+    for k in 0..n_events {
+        let n = rng.gen_range(0..48);
+        let mut b: Vec<u8> = (0..n).map(|_| if rng.gen_range(0..12) == 0 { 0 } else { rng.gen_range(1..=255) }).collect();
+        if rng.gen_bool(0.5) { b.push(0); }
+        if rng.gen_range(0..8) == 0 { b.push(0); }
+        let (ev, r) = if k % 2 == 0 {
+            ("until_nul", kc::from_bytes_until_nul(&b).ok().map(|c| kc::to_bytes_with_nul(c).to_vec()))
+        } else {
+            ("with_nul", kc::from_bytes_with_nul(&b).ok().map(|c| kc::to_bytes_with_nul(c).to_vec()))
+        };
+        let (ok, c) = match r { Some(x) => (1, x), None => (0, vec![]) };
+        writeln!(out, "{}", json!({"ev": ev, "b": jb(&b), "ok": ok, "c": jb(&c)})).unwrap();
+    }
+}
